@@ -18,7 +18,7 @@ from . import common
 ID = "C17"
 NEEDS_MODEL = False
 LEVEL = "exploration"
-N = {"quick": 12000, "thorough": 200000}
+N = {"quick": 12000, "thorough": 600000}
 TECHNIQUE = ("runtime monitoring: round-trip and differential monitor on the real parser classes "
              "against an independent reference recogniser, over generated and mutated strings")
 
